@@ -21,6 +21,22 @@ APPLY_OP_TO_UNIT = (
 # Operations where an operand without a unit is a dimensionless quantity, as for
 # the + and - operators
 STRICT_UNIT_OPS = ("add", "subtract")
+# Keyword arguments that are operands in the unit of the first operand (bounds, values
+# to insert, starting values), as opposed to options (axis=...) and to operands with
+# a unit of their own (weights=...)
+OPERAND_KEYWORDS = (
+    "a_min",
+    "a_max",
+    "min",
+    "max",
+    "values",
+    "initial",
+    "fill_value",
+    "prepend",
+    "append",
+    "to_begin",
+    "to_end",
+)
 
 
 def _binary_op(op, lhs, rhs, strict=True, **kwargs):
@@ -300,12 +316,21 @@ class Array(Base):
             return self._wrap_power(func, *args, **kwargs)
         reference = self
         if func.__name__ not in APPLY_OP_TO_UNIT:
-            found = self._reference_operand(args)
+            operands = [kwargs[key] for key in OPERAND_KEYWORDS if key in kwargs]
+            found = self._reference_operand(list(args) + operands)
             if found is not None:
                 reference = found
                 args = self._to_unit(
                     args, reference.unit, strict=func.__name__ in STRICT_UNIT_OPS
                 )
+                kwargs = {
+                    key: (
+                        self._to_unit(a, reference.unit, strict=False)
+                        if key in OPERAND_KEYWORDS
+                        else a
+                    )
+                    for key, a in kwargs.items()
+                }
         if isinstance(args[0], (tuple, list)):
             array_args = (
                 self._extract_arrays_from_args(args[0]),
